@@ -73,6 +73,19 @@ class Chooser:
             non = [t for t in en if not w.is_pure_timeout(t)]
             self.last = self.rng.choice(non or en)
             return self.last
+        if self.kind == "starve":
+            # one victim thread is parked at a random point for a long stretch (everybody else runs on, whole batches may pass) and resumes later:
+            # exposes stale notifications / state that a delayed thread carries into a later batch
+            if not hasattr(self, "victim"):
+                self.victim = self.rng.randrange(len(self.prio))
+                self.start = self.rng.randrange(3, 90)
+                self.length = self.rng.randrange(30, 400)
+            others = [t for t in en if t != self.victim]
+            if self.start <= self.i < self.start + self.length and others:
+                non = [t for t in others if not w.is_pure_timeout(t)]
+                return self.rng.choice(non or others)
+            non = [t for t in en if not w.is_pure_timeout(t)]
+            return self.rng.choice(non or en) if self.rng.random() < 0.7 else self.rng.choice(en)
         raise ValueError(self.kind)
 
 
@@ -219,7 +232,7 @@ def conform(ex, drv):
     return None
 
 
-KINDS = ["random", "random", "lazy-timeouts", "eager-timeouts", "pct", "pct", "sticky"]
+KINDS = ["random", "random", "lazy-timeouts", "eager-timeouts", "pct", "pct", "sticky", "starve", "starve"]
 
 
 def explore_bounded(programs, faults, bound, limit, on_exec, submit=(), stop=lambda: False):
@@ -337,6 +350,36 @@ def run_cluster(ctx, prop):
                                on_exec=lambda ex: handle(ex, "bounded-preemption"), submit=submit,
                                stop=lambda: ctx.out_of_time() or len(ctx.violations) >= 5)
     ctx.extra["bounded_preemption_schedules"] = tot
+    # divergence-guided search: where the implementation left the model, park each thread in turn right there for a long stretch while the others run on
+    # (the model says which step differs; what a delayed thread then carries into later batches is what the oracles look at)
+    if ctx.disagreements and not ctx.violations:
+        import re
+        import time
+
+        t_end = time.time() + float(__import__("os").environ.get("VERIF_GUIDED_S", "150"))  # its own budget: the general one is usually spent by now
+        tried = 0
+        targets = []
+        for d in [d for d in ctx.disagreements if d.get("what") == "runner trace conformance"][:6]:
+            m = re.search(r"step (\d+)", str(d.get("impl")))
+            inp = d.get("input") or {}
+            if not m or "schedule" not in inp:
+                continue
+            # later batches need callers: every thread gets two further calls
+            ids = itertools.count(1000)
+            progs = [[list(c) for c in p] + [[next(ids)], [next(ids), next(ids)]] for p in inp["programs"]]
+            targets.append((int(m.group(1)), progs, inp))
+        while targets and time.time() < t_end and not ctx.violations:
+            for k, progs, inp in targets:
+                for back in (0, 1, 2, 3, 5, 8):
+                    prefix = inp["schedule"][: max(k - back, 0)]
+                    for victim in range(len(progs)):
+                        if time.time() > t_end or ctx.violations:
+                            break
+                        ch = Chooser("starve", random.Random(rng.random()), len(progs), prefix=prefix)
+                        ch.victim, ch.start, ch.length = victim, len(prefix), random.Random(rng.random()).randrange(40, 600)
+                        handle(execute(progs, inp["faults"], ch, submit=inp.get("submit", []), record=False), "divergence-guided")
+                        tried += 1
+        ctx.extra["divergence_guided_schedules"] = tried
     if other:
         ctx.notes.append(f"oracle violations of sibling properties seen in this run (reported by their own checks): {other}")
 
